@@ -1184,3 +1184,89 @@ vk_harness!(c18_error_in_direct_mode_clears_the_stack, {
 vk_harness!(c18_error_in_program_keeps_frames, {
     failing_statement(3);
 });
+
+// ---------------------------------------------------------------------------------------------------------------
+// C12: CLEAR at the VM level
+
+//@ prop: C12
+//@ tier: quick
+//@ unwind: 28
+//@ encodes: Runtime::r#clear; Var::clear; Program::restore_data; Link::restore_data; Stack::clear
+//@ stubs: rand::random::<u32>() = any u32
+//@ bounds: arbitrary DEFtype table, one stored variable, one dimensioned array, one user function, 0..=3 stack entries (RETURN / NEXT frames included), any saved continuation, DATA pointer anywhere < 2^16
+vk_harness!(c12_clear_step, {
+    let mut r = Runtime::default();
+    crate::mach::vh_var::havoc_types(&mut r.vars);
+    crate::mach::vh_var::raw_insert(&mut r.vars, "A%", Val::Integer(vk::any_i16()));
+    crate::mach::vh_var::add_dim(&mut r.vars, "B", 3);
+    r.functions.insert("FNA".into(), (1, vk::any_u16() as usize));
+    havoc_stack(&mut r);
+    r.cont = state_of(vk::any_below(10));
+    crate::mach::vh_link::set_data_pos(crate::mach::vh_program::link_mut(&mut r.program), vk::any_u16() as usize);
+    r.r#clear();
+    vk_check!(crate::mach::vh_var::is_pristine(&r.vars), "C12: CLEAR leaves every variable, array and type default as at start-up");
+    vk_check!(r.functions.len() == 0, "C12: CLEAR forgets user functions");
+    vk_check!(r.stack.len() == 0, "C12: CLEAR drops abandoned FOR / GOSUB frames");
+    vk_check!(code_of_state(&r.cont) == 1, "C12: CLEAR cancels the continuation");
+    vk_check!(crate::mach::vh_link::data_pos(crate::mach::vh_program::link_of(&r.program)) == 0, "C12 / C09: CLEAR (and therefore RUN) rewinds the DATA pointer");
+    vk_check!(r.rand.0 >= 1 && r.rand.1 >= 1 && r.rand.2 >= 1, "C12: the random generator is reseeded with non-zero state");
+    vk_cover!(true, "reach: clear");
+    core::mem::forget(r);
+});
+
+// ---------------------------------------------------------------------------------------------------------------
+// C13: behaviour does not depend on how many instructions each execute() call is given (opcode programs)
+
+fn slicing_independent(a: usize, b: usize) {
+    let (x, y) = (vk::any_i16(), vk::any_i16());
+    let mk = || {
+        let mut r = Runtime::default();
+        load_ops(&mut r, vec![Opcode::Literal(Val::Integer(x)), Opcode::Literal(Val::Integer(y)), Opcode::Sub, Opcode::End]);
+        r.state = State::Running;
+        r.pc = 0;
+        r.entry_address = 4;
+        r
+    };
+    let mut one = mk();
+    let e1 = one.execute(a + b);
+    let mut two = mk();
+    let e2a = two.execute(a);
+    let e2b = two.execute(b);
+    // same final VM state; the sliced run only adds "still running" events
+    vk_check!(one.pc == two.pc && code_of_state(&one.state) == code_of_state(&two.state), "C13: slicing the run must not change where it ends");
+    vk_check!(one.stack.len() == two.stack.len(), "C13: slicing the run must not change the stack");
+    let same_top = match (one.stack.last(), two.stack.last()) {
+        (Some(Val::Integer(p)), Some(Val::Integer(q))) => p == q,
+        (None, None) => true,
+        _ => false,
+    };
+    vk_check!(same_top, "C13: slicing the run must not change computed values");
+    vk_check!(code_of_state(&one.cont) == code_of_state(&two.cont) && one.cont_pc == two.cont_pc, "C13: slicing the run must not change the continuation");
+    vk_check!(matches!(e2a, Event::Running), "C13: a slice that exhausts its budget reports Running");
+    vk_cover!(true, "reach: sliced run");
+    core::mem::forget(one);
+    core::mem::forget(two);
+    core::mem::forget(e1);
+    core::mem::forget(e2a);
+    core::mem::forget(e2b);
+}
+
+//@ prop: C13
+//@ tier: quick
+//@ unwind: 12
+//@ verbose: off
+//@ encodes: Runtime::execute; Runtime::execute_loop (instruction budget; Literal, Sub, End dispatch); error bookkeeping when the subtraction overflows
+//@ bounds: program [Literal x, Literal y, Sub, End] with x, y any Integer; budget 4 in one call versus 1 + 3
+vk_harness!(c13_slicing_1_3, {
+    slicing_independent(1, 3);
+});
+
+//@ prop: C13
+//@ tier: quick
+//@ unwind: 12
+//@ verbose: off
+//@ encodes: Runtime::execute; Runtime::execute_loop (instruction budget; Literal, Sub, End dispatch); error bookkeeping when the subtraction overflows
+//@ bounds: program [Literal x, Literal y, Sub, End] with x, y any Integer; budget 4 in one call versus 2 + 2
+vk_harness!(c13_slicing_2_2, {
+    slicing_independent(2, 2);
+});
